@@ -154,6 +154,7 @@ type world struct {
 	ghostZones     []string
 	fresh            []*ring.Ring
 	lookupNontrivial bool
+	rangesNontrivial bool
 	observedCommits  int
 	lastObservedAt   time.Duration
 	lastObservedVer  int
